@@ -601,3 +601,21 @@ Proof.
     (split; [reflexivity|]); unfold sfin; cbn [complete]; rewrite ?Hd;
     destruct (srest a) as [|[] r]; cbn; split; auto; discriminate.
 Qed.
+
+(* ====================================================================== schedules *)
+(* running a schedule from a reachable state stays reachable (used by the non-vacuity examples) *)
+Fixpoint wb_run (p : prog) (k : kind) (sched : list nat) (m : mstate) : bool :=
+  match sched with
+  | [] => true
+  | t :: r => wb_ok k (fst m) t &&
+              match mstep p k t m with Some m' => wb_run p k r m' | None => wb_run p k r m end
+  end.
+
+Lemma reach_run p k cl sched m :
+  reach p k cl m -> wb_run p k sched m = true -> reach p k cl (run p k sched m).
+Proof.
+  revert m; induction sched as [|t r IH]; intros m Hr Hw; [exact Hr|].
+  cbn [run wb_run] in *. apply andb_true_iff in Hw. destruct Hw as [Hw1 Hw2].
+  destruct (mstep p k t m) as [m'|] eqn:E; [|auto].
+  apply IH; auto. econstructor; eauto.
+Qed.
